@@ -326,12 +326,14 @@ MANIFEST_TEXT = {
         level_text="Proof: String then FromString is the identity for all 2^128 values of both types; FromBigInt returns the exact value in range "
                    "and the nearest bound otherwise, for every integer, and AsBigInt/FromBigInt round-trips; FromFloat64 of every finite double "
                    "is its truncation toward zero clamped to the type's range (no double lies strictly between 2^128-2^75 and 2^128), NaN gives "
-                   "0, infinities the bounds; AsFloat64 is exactly the value, without negative zero, below 2^53; each narrowing predicate holds "
+                   "0, infinities the bounds; AsFloat64 is exactly the value, without negative zero, below 2^53, and from 2^53 on - through its three "
+                   "roundings (float64 of each word, nearest-even, and the float64 sum) - has the value's sign and lies within one unit "
+                   "in the last place of it (strictly less for Uint128; attained for a negative Int128, witness in Props.v); each narrowing predicate holds "
                    "exactly when its As* conversion preserves the value -- Coq theorems over C01's word model and C04's decimal printer. The "
                    "model is compared with the real types on boundary-heavy values, big.Ints, texts and float bit patterns; an exact "
                    "integer/rational oracle checks every rendering (fmt verbs, JSON, YAML hooks, Text, Scan round trips against math/big) "
                    "and the one-unit-in-the-last-place bound of AsFloat64.",
-        level_note="Partial: the AsFloat64 bound beyond 2^53 and its sign are checked by the oracle on every run, not proved; math/big, strconv, "
+        level_note="Partial: float64(uint64) and float64 addition are modelled as round-to-nearest-even on integers (round53), tied to the hardware by K; math/big, strconv, "
                    "fmt and encoding/json are trusted as the reference renderings; the other integer spellings math/big accepts are outside the model.",
         technique="Coq proof (integer arithmetic with case analysis on the decoded double; reuse of the decimal round-trip and 128-bit word lemmas) on a hand-written Gallina model + differential correspondence check with an exact oracle"),
     "C19": dict(
